@@ -12,7 +12,7 @@ RULE = ("Contract monitor over the five rating classes: for pairs (a, b) of one 
         "{default 3, 0, 1, 2.5}; a==b iff mu and sigma both equal (and != its negation); sorted() of 2-50 ratings must be "
         "ordered by ordinal; foreign operands (ratings of the four other models, int, float, str, None, tuple, list, a "
         "model object) must raise ValueError for the four order operators in both operand orders and be unequal under ==. "
-        "Every third pair is re-checked after in-place changes of sigma and mu on the same objects (rate() itself "
+        "A third of the batches use operands that are instances of an application-side SUBCLASS of the rating class (left, right, both, two sibling subclasses; mixed leaderboards for sorted()): they are ratings of that model. Every third pair is re-checked after in-place changes of sigma and mu on the same objects (rate() itself "
         "updates ratings in place), so a stale cached ordinal is visible. The pair pool is engineered so that ordinals are exactly equal with different (mu, sigma) (dyadic rationals), "
         "equal with equal (mu, sigma), 1 ulp apart, negative, zero, and random. Non-trivial: a pair with exactly equal "
         "ordinals or a foreign operand; distinct by (class, values, operand kind).")
@@ -24,7 +24,7 @@ OPS = {"<": operator.lt, "<=": operator.le, ">": operator.gt, ">=": operator.ge}
 def floors(tier):
     q = tier == "quick"
     return {"order-op": 200000 if q else 40000000, "equal-ordinals": 20000 if q else 4000000, "foreign": 20000 if q else 4000000,
-            "eq": 50000 if q else 10000000, "after-mutation": 50000 if q else 10000000, "ordinal": 50000 if q else 10000000, "sorted": 1500 if q else 300000}
+            "eq": 50000 if q else 10000000, "after-mutation": 50000 if q else 10000000, "subclass-operand": 10000 if q else 2000000, "ordinal": 50000 if q else 10000000, "sorted": 1500 if q else 300000}
 
 
 def generate(ctx):
@@ -60,7 +60,10 @@ def generate(ctx):
                 b = (rng.uniform(-100, 100), rng.uniform(0, 30))
             pairs.append([list(a), list(b)])
         yield "pairs", dict(model=m, pairs=pairs, z=rng.choice([None, 0, 1, 2.5, 3.0]),
-                            sort_n=rng.randint(2, 50), sort_seed=rng.randrange(2 ** 30))
+                            sort_n=rng.randint(2, 50), sort_seed=rng.randrange(2 ** 30),
+                            # operands that are instances of an application-side subclass of the rating class (they are
+                            # ratings of that model): left, right, both of one subclass, two sibling subclasses
+                            subclass=rng.choice([None, None, None, None, "a", "b", "both", "siblings"]))
 
 
 def _foreign(Ms, model_name, mu, sigma):
@@ -81,9 +84,18 @@ def probe_pairs(ctx, payload):
     kind = KIND[model_name]
     model = Ms[model_name]()
     z = payload["z"]
+    sub = payload.get("subclass")
+    RC = type(model.rating())
+    from ..util import make_sub
+
+    mk_a = (lambda mu, s_, n: make_sub(RC, 0, mu, s_, n)) if sub in ("a", "both", "siblings") else None
+    mk_b = (lambda mu, s_, n, w=(1 if sub == "siblings" else 0): make_sub(RC, w, mu, s_, n)) if sub in ("b", "both", "siblings") else None
+    ctx.bucket("operand_classes", sub or "plain")
     for idx, (pa, pb) in enumerate(payload["pairs"]):
-        a = model.rating(pa[0], pa[1], "a")
-        b = model.rating(pb[0], pb[1], "b")
+        a = model.rating(pa[0], pa[1], "a") if mk_a is None else mk_a(pa[0], pa[1], "a")
+        b = model.rating(pb[0], pb[1], "b") if mk_b is None else mk_b(pb[0], pb[1], "b")
+        if sub:
+            ctx.ev("subclass-operand")
         try:
             oa, ob = a.ordinal(), b.ordinal()
         except Exception as e:  # noqa: BLE001
@@ -197,6 +209,8 @@ def probe_pairs(ctx, payload):
     rng = random.Random(payload["sort_seed"])
     pool = [p for pr in payload["pairs"] for p in pr]
     items = [model.rating(*rng.choice(pool)) for _ in range(payload["sort_n"])]
+    if sub:  # a leaderboard that mixes plain ratings and instances of the application's subclasses
+        items = [(make_sub(RC, i % 2, r.mu, r.sigma) if i % 3 else r) for i, r in enumerate(items)]
     ctx.ev("sorted")
     try:
         srt = sorted(items)
